@@ -6,7 +6,8 @@
    all of them, in particular for patterns that would also match the function name. *)
 From Coq Require Import String List.
 From CMinx Require Import Base.Str Model.Lexer Model.Parser Model.Writer Model.DocTypes
-     Model.Aggregator Spec.EntrySpec Spec.AggSpec Proofs.AggInv Proofs.AggDefs.
+     Model.Aggregator Spec.EntrySpec Spec.AggSpec Proofs.AggInv Proofs.AggDefs
+     Base.PySem Gen.PySource Proofs.SourceMatch.
 Import ListNotations.
 
 (* every function()/macro() pushes one frame, its end command pops one: balanced bodies restore
@@ -92,3 +93,24 @@ Theorem C03_kwargs_once_last :
           ((if m then [Dir (s"note") [macro_note] [] []] else []) ++ [Para d]).
 Proof. exact kwargs_once_last. Qed.
 Print Assumptions C03_kwargs_once_last.
+
+(* ---- tie by translation: Gen/PySource.v is regenerated from the CURRENT Python source by
+   translators/py2coq.py (statement-by-statement rendering of the function into Gallina over the
+   combinators of Base/PySem.v); the model function is proved equal to it for all arguments ---- *)
+(* FunctionDocumentation.process / MacroDocumentation.process executed on a top-level writer w add
+   exactly the element render_entry gives (second component: the mutated self.params) *)
+Theorem C03_function_process_matches_source :
+  forall w name doc params kw,
+    PySource.FunctionDocumentation_process w [] name doc params kw
+    = (w_add w (render_entry (EFunction false name doc params kw)),
+       if kw then params ++ [kwargs_lit] else params).
+Proof. exact function_process_matches_source. Qed.
+Print Assumptions C03_function_process_matches_source.
+
+Theorem C03_macro_process_matches_source :
+  forall w name doc params kw,
+    PySource.MacroDocumentation_process w [] name doc params kw
+    = (w_add w (render_entry (EFunction true name doc params kw)),
+       if kw then params ++ [kwargs_lit] else params).
+Proof. exact macro_process_matches_source. Qed.
+Print Assumptions C03_macro_process_matches_source.
